@@ -84,7 +84,7 @@ def gen_specs(run):
             members, derived, vm = make_batch(run, rng, k, set(bad), kind)
             mode = rng.choice(["VerifyOnly", "RecoverAndVerify"])
             big = k > 40
-            verifies = [{"mode": mode, "vmembers": vm, "log": (not big) or (sid % 4 == 0), "_role": "batch"}]
+            verifies = [{"mode": mode, "vmembers": vm, "log": (not big) or (sid % (12 if quick else 4) == 0), "_role": "batch"}]
             # a permutation of the same batch
             perm = list(range(k))
             rng.shuffle(perm)
